@@ -41,7 +41,19 @@ TRUSTED = ["vp/iso.py", "vp/symmetry.py", "known automorphism group orders"]
 def gen(data: bytes):
     from vp.props import c02
     tp = S.Tape(data)
-    k = tp.weighted([3, 5, 3])
+    k = tp.weighted([3, 5, 3, 2])
+    if k == 3:
+        cls = tp.pick(["MG", "CRG", "SMG"])
+        m = S.random_regular(tp, cls)
+        if m is None:
+            k = 0
+        else:
+            rb, _ = S.variant_from(m, list(S.renaming(tp, m.atoms).items()),
+                                   tp.below(1 << 30))
+            case = {"src": "regular", "a": S.shuffled_recipe(tp, m), "b": rb,
+                    "stereo": False, "changes": False,
+                    "labels": tp.pick(["default", "uniform", "refined"])}
+            return case
     if k == 0:
         cls = tp.pick(["MG", "SMG", "CRG", "SCRG", "SMG", "SCRG"])
         fam = tp.pick(["star", "cycle", "double", "double", "gnp"])
@@ -53,6 +65,8 @@ def gen(data: bytes):
     else:
         case = c02.gen_pair(tp, sources=(4, 6, 3, 0, 0, 3))
         case.pop("kind", None)
+    if tp.chance(128):
+        case["a"], case["b"] = case["b"], case["a"]
     cls = case["a"]["cls"]
     stereo = cls in ("SMG", "SCRG") and tp.chance(170)
     changes = cls == "SCRG" and stereo and tp.chance(170)
